@@ -20,6 +20,14 @@ names (cnl_avail / logcnl_avail, nestedMevMu / lognestedMevMu) and mev / logmev 
 get_mev_for_nested[_mu] / get_mev_for_cross_nested[_mu] and their camelCase names - with nests given as objects or in
 the old tuple syntax (forms sweeps: every J <= 3 nested structure, every J = 2 two-nest CNL structure).
 
+MEV models with correction terms: mev_endogenous_sampling / logmev_endogenous_sampling and their backward-compatible names
+(MEV models built from user-supplied ln G_i with one more argument, a correction term per alternative added to V_i + ln G_i):
+hand-supplied ln G_i columns x every assignment of a 3-value grid of correction terms (it holds 0) to the alternatives x
+the form of the terms (numbers, int 0, Numeric, fixed / free Betas, data columns) x every availability pattern, small shifts
+and large common levels; the same pair fed with the ln G_i of the library's helpers on every J <= 3 nested and two-nest
+cross-nested structure; without a database through both evaluators; in histories with the entry points without correction.
+Reference: the logit on V_i + ln G_i + correction_i over the available alternatives.
+
 Histories: the model functions are called the way a simulation script calls them - many calls with ONE dict of utilities,
 ONE dict of availabilities, ONE nest object, ONE dict of ln G_i: every ordered pair of entry points of a family (logit /
 loglogit included), the per-alternative loop (one call per alternative with a constant choice, in every rotation of the
@@ -67,7 +75,9 @@ RULE = ('one case = one (model, expression forms, nest structure, parameter assi
         'objects) x availability pattern, same non-triviality rule, the history is part of the key. Evaluations without a database: '
         'one case = one (model, forms, structure, parameters, availability pattern, evaluator) evaluated on every utility vector x '
         'chosen alternative x shift / level (one expression built and evaluated per probability); same non-triviality rule, the '
-        'evaluator is part of the key.')
+        'evaluator is part of the key. MEV models with correction terms: the correction vector and the form of the terms are part '
+        'of the key; non-trivial additionally requires two available alternatives with different correction terms (otherwise the '
+        'model is the one without correction).')
 ASSUMPTIONS = [
     'continuous domains (utilities, nest parameters, scale, alpha, thresholds) are covered at the grid points of the '
     'per-seed alphabets only (5 alphabets; utilities in [-3, 3.2] plus common shifts up to |12|)',
@@ -79,8 +89,17 @@ ASSUMPTIONS = [
     'constant choice, Beta / Numeric nest and scale parameters, alpha as Beta) are crossed with every J=2 structure and '
     '(thorough) every J=3 nested structure; in quick they rotate over the J=3 structures',
     'backward-compatible names and ln G_i helpers: crossed with the forms sweeps (J <= 3 nested, J = 2 CNL; helper rotating '
-    'with the structure) and with the histories; mev_endogenous_sampling / get_mev_generating_for_nested are not probability '
-    'models of the statement and are not called',
+    'with the structure) and with the histories; get_mev_generating_for_nested (ln G, not a probability model) is not called',
+    'MEV models with correction terms (mev_endogenous_sampling, logmev_endogenous_sampling, mev_endogenousSampling, '
+    'logmev_endogenousSampling): correction terms from a 3-value grid per alphabet holding 0 (|term| <= 2.3); hand-supplied ln G_i: '
+    'J = 2 every generating function x all 9 correction vectors; J = 3 every third generating function x 6 vectors (quick) / every '
+    'one x all 27; J = 4 (thorough) every fifth x 6 vectors; the form of the terms rotates with the case; ln G_i from the '
+    'library helpers: every J <= 3 nested structure, every J = 2 and (quick: every fourth) J = 3 one-split two-nest cross-nested '
+    'structure, 3 (quick) / 6 or 9 correction vectors, helper and forms rotating; without a database: a rotating subset of the '
+    'generating functions, forms and vectors (thorough: also the helper-fed pair on the nested / cross-nested structures); '
+    'histories: loops and every ordered pair that holds one of these entry points, over 7 entry points, on 2 user-MEV + 1 nested + '
+    '1 cross-nested context (quick) / every third or fourth context (thorough), one correction vector per context; the reference '
+    'is the logit on V_i + ln G_i + correction_i, computed by re-weighting the reference MEV probabilities with exp(correction)',
     'histories of calls on shared argument objects: depth 2 over all 16 (nested / cnl) or 4 (user MEV) entry points and the '
     'per-alternative loop, on a subset of contexts (quick: 4 J=2 + 3 J=3 nested, 3 J=2 + 2 J=3 CNL structures rotating with '
     'the seed, user MEV J=2 all, J=3 every third; thorough: every J <= 3 nested structure, 3 J=4, 20 CNL structures, depth 3 '
@@ -1200,7 +1219,6 @@ def _part_endo(task, alph, rec):
     alts = alph['labels'][:J]
     gens = usermev_generators(alph, J)
     vecs = corr_vectors(alph, J, 'full' if (J == 2 or (tier == 'thorough' and J == 3)) else 'reduced')
-    models = [(m, None) for m in ENDO_MODELS + ENDO_ALIASES]
     for gi in task['gens']:
         gen, gmu = gens[gi]
         af = ('var', 'none', 'var')[gi % 3]
@@ -1209,7 +1227,9 @@ def _part_endo(task, alph, rec):
         cols = user_logGi_columns_h(spec0, table)
         for ci, corr in enumerate(vecs):
             forms = dict(av=af, corr=CORR_FORMS[(gi + ci) % len(CORR_FORMS)])
-            run_family(dict(spec0, forms=forms, corr=corr), models, table, rec, extra_cols=cols)
+            # the backward-compatible names: with every correction vector of the reduced set, every third one of the full set
+            models = ENDO_MODELS + (ENDO_ALIASES if (len(vecs) <= 9 or ci % 3 == gi % 3) else [])
+            run_family(dict(spec0, forms=forms, corr=corr), [(m, None) for m in models], table, rec, extra_cols=cols)
     rec.sample(dict(part='endo', alts=alts, generating_functions=len(task['gens']), correction_vectors=len(vecs),
                     first_vectors=vecs[:3]))
 
@@ -1548,7 +1568,8 @@ def hist_tasks(alph, tier, seed):
     ctxs = hist_contexts(alph, tier, seed)
     for kind, cnt in (('usermev', 2), ('nested', 1), ('cnl', 1)):
         cis = [ci for ci, c in enumerate(ctxs) if c['kind'] == kind]
-        sel = _rot(cis, int(seed), cnt) if quick else (cis if kind == 'usermev' else cis[int(seed) % 2::2])
+        # thorough: every third user-MEV context, every fourth nested / cross-nested context (start rotating with the seed)
+        sel = _rot(cis, int(seed), cnt) if quick else cis[int(seed) % 3::(3 if kind == 'usermev' else 4)]
         for ci in sel:
             vecs = corr_vectors(alph, ctxs[ci]['J'], 'reduced')
             t.append(dict(part='hist', ci=ci, sub='endo', corr=vecs[(ci + int(seed)) % len(vecs)],
@@ -1886,10 +1907,10 @@ def pyeval_tasks(alph, tier, seed):
         if quick:
             gsel = gsel[seed % 2::2]
         for ch in _chunks(gsel, 4 if J == 2 else 2):
-            t.append(mk(fam='endo', J=J, ev='py', gens=list(ch), forms=[seed % nf] if quick else [0, 3, 5, 6],
-                        vecs=[0, 3] if quick else list(range(6))))
-        for ch in _chunks(gsel[::3] if quick else gsel, 3):
-            t.append(mk(fam='endo', J=J, ev='c0', gens=list(ch), forms=[1] if quick else [1, 4], vecs=[1] if quick else [1, 4]))
+            t.append(mk(fam='endo', J=J, ev='py', gens=list(ch), forms=[seed % nf] if quick else ([0, 3, 5, 6] if J < 4 else [0, 5]),
+                        vecs=[0, 3] if (quick or J == 4) else list(range(6))))
+        for ch in _chunks(gsel[::3] if (quick or J == 4) else gsel, 3):
+            t.append(mk(fam='endo', J=J, ev='c0', gens=list(ch), forms=[1] if (quick or J == 4) else [1, 4], vecs=[1]))
     if not quick:
         for task in t:
             if task['fam'] in ('nested', 'cnl'):
